@@ -257,6 +257,12 @@ pub fn reverse_position_reply(
 
     let previous_margin = Integer::new_negative(position.margin);
 
+    // the funding owed by the position being closed is settled together with its pnl
+    let funding_payment =
+        calc_remain_margin_with_funding_payment(deps.as_ref(), position.clone(), Integer::zero())?
+            .funding_payment;
+    swap.unrealized_pnl = swap.unrealized_pnl - funding_payment;
+
     // reset the position in order to reverse
     position = clear_position(env, position)?;
 
